@@ -114,14 +114,13 @@ def _check_chunk(jobs):
                     if not all(math.isnan(v) for v in cdf):
                         bad("ens2prob:cdf", "%s: all members missing, expected missing cdf, observed %r" % (lab, cdf.tolist()))
                 else:
-                    prev = -1.0
                     for k, v in enumerate(cdf):
                         lo, hi = num(c["cdflo"][k]), num(c["cdfhi"][k])
                         if math.isnan(v) or v < lo - 1e-6 or v > hi + 1e-6 or v < -1e-9 or v > 1 + 1e-9:
-                            bad("ens2prob:cdf", "%s: cdf at %r = %r outside [%r, %r]" % (lab, c["thresholds"][k], float(v), lo, hi))
-                        if not math.isnan(v) and v < prev - 1e-9:
-                            bad("ens2prob:cdf-monotone", "%s: cdf decreases with the threshold: %r" % (lab, cdf.tolist()))
-                        prev = v if not math.isnan(v) else prev
+                            bad("ens2prob:cdf", "%s: cdf at threshold %r = %r outside [%r, %r]" % (lab, c["thresholds"][k], float(v), lo, hi))
+                    bythr = sorted((num(t), float(v)) for t, v in zip(c["thresholds"], cdf))
+                    if any(b[1] < a[1] - 1e-9 for a, b in zip(bythr, bythr[1:])):
+                        bad("ens2prob:cdf-monotone", "%s: cdf decreases with the threshold: %r" % (lab, bythr))
                 if not c["anyMissing"]:
                     lo, hi = num(c["lo"]), num(c["hi"])
                     prevx = -1e30
@@ -136,6 +135,8 @@ def _check_chunk(jobs):
                     if not ok:
                         site = "ens2prob:pit-missing-obs" if math.isnan(want) else "ens2prob:pit"
                         bad(site, "%s: expected PIT %r observed %r" % (lab, want, pit))
+                if not arr_eq(c["thresholds"], out["threshold"]) or not arr_eq(c["levels"], out["quantile"]):
+                    bad("ens2prob:levels", "%s: threshold / quantile variables %r %r do not list the requested values" % (lab, out["threshold"].tolist(), out["quantile"].tolist()))
                 if not (arr_eq(inp["times"], out["time"]) and arr_eq(inp["leads"], out["leadtime"]) and meta_ok(out)
                         and arr_eq(inp["obs"], out["obs"]) and arr_eq(inp["fcst"], out["fcst"])):
                     bad("ens2prob:metadata", "%s: dimensions, location metadata or obs/fcst not preserved" % lab)
